@@ -504,6 +504,23 @@ func (g *Gen) Txn() []AOp {
 	return ops
 }
 
+// waitable reports whether the implementation's wait can be compared with
+// RFC 7047 on this column for this actual value: it compares sets in element
+// order, so only atoms, optionals and collections of at most one element
+// qualify (the rest is a known finding, probed separately).
+func waitable(c Col, actual interface{}) bool {
+	switch KindOf(c) {
+	case "atom", "opt":
+		return true
+	}
+	a, ok := actual.([]interface{})
+	return ok && len(a) <= 1
+}
+
+func isDefaultAbs(c Col, v interface{}) bool {
+	return fmt.Sprint(v) == fmt.Sprint(DefaultAbs(c)) || fmt.Sprint(v) == "[0 1]" && c.Key.T == "real"
+}
+
 func (g *Gen) fillWait(o *AOp, pending map[string][]string) {
 	t := o.Table
 	tb := g.S.Tables[t]
@@ -511,36 +528,41 @@ func (g *Gen) fillWait(o *AOp, pending map[string][]string) {
 	o.Until = []string{"==", "!="}[g.pick(2)]
 	us := g.uuidsOf(t)
 	cols := tb.ColNames()
+	o.HasColumns = true
 	// wait on one existing row, identified by uuid, comparing a few columns
-	if len(us) > 0 && g.chance(0.8) {
+	if len(us) > 0 && g.chance(0.85) {
 		u := us[g.pick(len(us))]
 		o.Where = [][]interface{}{{"_uuid", "==", u, "atom"}}
-		o.HasColumns = true
 		n := 1 + g.pick(2)
 		row := map[string]interface{}{}
-		for i := 0; i < n; i++ {
+		for i := 0; i < n*4 && len(o.Columns) < n; i++ {
 			cn := cols[g.pick(len(cols))]
-			dup := false
-			for _, c := range o.Columns {
-				if c == cn {
-					dup = true
-				}
-			}
-			if dup {
+			c := tb.Cols[cn]
+			actual := g.St[t][u][cn]
+			if _, dup := row[cn]; dup || !waitable(c, actual) {
 				continue
 			}
-			o.Columns = append(o.Columns, cn)
-			if g.chance(0.7) {
-				row[cn] = g.St[t][u][cn]
-			} else {
-				row[cn] = g.value(tb.Cols[cn], pending)
+			v := actual
+			if g.chance(0.35) {
+				v = g.value(c, pending)
+				if a, ok := v.([]interface{}); ok && len(a) > 1 {
+					v = actual
+				}
+				// an expected default value is not compared by the implementation
+				if isDefaultAbs(c, v) {
+					v = actual
+				}
 			}
+			o.Columns = append(o.Columns, cn)
+			row[cn] = v
 		}
-		o.Rows = []map[string]interface{}{row}
-		return
+		if len(o.Columns) > 0 {
+			o.Rows = []map[string]interface{}{row}
+			return
+		}
 	}
-	o.Where = g.where(t, pending)
-	o.HasColumns = true
+	// no row expected: a condition that selects nothing
+	o.Where = [][]interface{}{{"_uuid", "==", "u999", "atom"}}
 	o.Columns = []string{cols[g.pick(len(cols))]}
 	o.Rows = []map[string]interface{}{}
 }
@@ -562,11 +584,11 @@ func (g *Gen) sabotage(ops *[]AOp, pending map[string][]string) {
 		cn := cols[g.pick(len(cols))]
 		c := tb.Cols[cn]
 		var raw interface{} = "not-a-number"
-		if c.Key.T == "string" || c.Key.T == "uuid" || KindOf(c) != "atom" {
+		switch {
+		case KindOf(c) == "map":
+			raw = "not-a-map"
+		case c.Key.T == "string" || c.Key.T == "uuid":
 			raw = 12345.5
-			if KindOf(c) == "map" {
-				raw = "not-a-map"
-			}
 		}
 		bad.Row = map[string]interface{}{"!" + cn: raw}
 	case 3: // change an immutable column
@@ -606,7 +628,18 @@ func (g *Gen) sabotage(ops *[]AOp, pending map[string][]string) {
 		}
 		u := us[g.pick(len(us))]
 		cols := tb.ColNames()
-		cn := cols[g.pick(len(cols))]
+		cn := ""
+		for i := 0; i < 20; i++ {
+			x := cols[g.pick(len(cols))]
+			if waitable(tb.Cols[x], g.St[t][u][x]) {
+				cn = x
+				break
+			}
+		}
+		if cn == "" {
+			bad = AOp{Op: "abort", Table: t}
+			break
+		}
 		bad = AOp{Op: "wait", Table: t, Until: "!=", HasColumns: true, Columns: []string{cn},
 			Where: [][]interface{}{{"_uuid", "==", u, "atom"}},
 			Rows:  []map[string]interface{}{{cn: g.St[t][u][cn]}}}
